@@ -473,6 +473,9 @@ def run_c15(tier: str, seed: int) -> int:
                 texts.append(f"({head}:={val})")
         for op_ in (">=", "<=", "~="):
             texts += [f"(cn{op_}*)", f"(cn{op_}a*b)"]
+        for mb in ("caf\u00e9", "\u65e5\u672c\u8a9e", "\U0001f600\U0001f600", "\u00fc" * 6):
+            for tmpl in ("(&(cn={m})x)", "(|(o={m})(", "(!(cn={m})y)", "(&(cn={m})(sn=x)z)", "(&(cn={m}))x", "(|(a={m})(b={m})c)", "((cn={m}))", "(&(cn={m})", "(cn={m}))("):
+                texts.append(tmpl.format(m=mb))
         # arbitrary text
         alphabet = "()&|!=*\\:; a1.\n\t\x00é\U0001f600𐂀\udfff~<>"
         for _ in range(2000 if tier == "quick" else 40000):
